@@ -998,7 +998,7 @@ func checkLiteralFidelity(r *Run, ga *GA) {
 				}
 				cs := ga.charsOf(inner, map[string]bool{})
 				want := rsOf([]rune(f.Val)[0]).Complement()
-				if cs.String() != want.String() {
+				if cs.String() != want.String() || !ga.singleRune(inner, map[string]bool{}) {
 					spans = false
 				}
 			}
@@ -1099,6 +1099,46 @@ func (ga *GA) charsOf(n *peg.Node, seen map[string]bool) RuneSet {
 	return RuneSet{}
 }
 
+// singleRune: the node always consumes exactly one rune when it matches.
+func (ga *GA) singleRune(n *peg.Node, seen map[string]bool) bool {
+	switch n.Kind {
+	case peg.Class, peg.Any:
+		return true
+	case peg.Lit:
+		return len([]rune(n.Val)) == 1
+	case peg.RuleRef:
+		if seen[n.Name] {
+			return false
+		}
+		seen[n.Name] = true
+		if rr := ga.rules[n.Name]; rr != nil {
+			return ga.singleRune(rr.Expr, seen)
+		}
+	case peg.Labeled, peg.Action:
+		return ga.singleRune(n.Kids[0], seen)
+	case peg.Choice:
+		for _, k := range n.Kids {
+			if !ga.singleRune(k, seen) {
+				return false
+			}
+		}
+		return true
+	case peg.Seq:
+		cnt := 0
+		for _, k := range n.Kids {
+			if k.Kind == peg.Not || k.Kind == peg.And {
+				continue
+			}
+			if !ga.singleRune(k, seen) {
+				return false
+			}
+			cnt++
+		}
+		return cnt == 1
+	}
+	return false
+}
+
 // checkKeywordBoundary: a keyword literal (all letters) can never be directly
 // followed by an identifier character, otherwise identifiers that begin with a
 // keyword (notes, android, order) would be split.
@@ -1190,6 +1230,21 @@ func checkWhitespaceRule(r *Run, ga *GA) {
 		ok = !cs.Empty() && cs.Minus(ws).Empty() && cs.Has(' ')
 	}
 	r.Check("c16.layout-rule", "rule:"+best, ga.prog.pos(ga.tab.RulePos[rule]), ok, fmt.Sprintf("the layout rule %s (used optionally %d times) matches %s, expected a repetition of whitespace characters only", best, bn, cs))
+	// every other place that tests for "whitespace" uses the same set (a terminator that forgets a whitespace
+	// character would make one layout of the same expression parse differently)
+	for _, rl := range ga.order {
+		rl.Walk(func(n *peg.Node, path string) {
+			if n.Kind != peg.Class || n.Inverted {
+				return
+			}
+			set := ga.classSet(n)
+			if set.Has(' ') && set.Has('\t') {
+				ws := set.Intersect(rsOf(' ', '\t', '\r', '\n', '\f', '\v'))
+				r.Check("c16.layout-rule", "whitespace-class:"+path, ga.posOf(n), ws.String() == cs.String(),
+					fmt.Sprintf("this character class tests for whitespace %s, the layout rule accepts %s: the two must agree", ws, cs))
+			}
+		})
+	}
 }
 
 type valuePair struct{ nonNil, nilV bool }
